@@ -307,9 +307,17 @@ func newWorld(rng *rand.Rand, id string) *world {
 		}
 	}
 	seen := map[string]bool{}
-	mk := func(commit, ack []byte) *packet {
+	// want: 0 any triple, 1 a triple whose COMMITMENT slot hash starts with a zero byte, 2 one whose ACK slot does
+	// (slot keys are 32-byte words: code that handles them as numbers loses the leading zeros)
+	mkSlot := func(commit, ack []byte, want int) *packet {
 		for {
 			p := &packet{src: names[rng.Intn(3)], dst: names[rng.Intn(3)], seq: genSeq(rng), commit: commit, ack: ack}
+			if want == 1 && slotOf(false, p.src, p.dst, p.seq)[0] != 0 {
+				continue
+			}
+			if want == 2 && slotOf(true, p.src, p.dst, p.seq)[0] != 0 {
+				continue
+			}
 			k := p.src + "|" + p.dst + "|" + strconv.FormatUint(p.seq, 10)
 			// also keep seq+1 and the swapped pair free so that "neighbour" claims are about unwritten slots
 			k2 := p.src + "|" + p.dst + "|" + strconv.FormatUint(p.seq+1, 10)
@@ -324,15 +332,16 @@ func newWorld(rng *rand.Rand, id string) *world {
 			return p
 		}
 	}
+	mk := func(commit, ack []byte) *packet { return mkSlot(commit, ack, 0) }
 	v0 := gen32(rng)
 	w.packets = []*packet{
 		mk(v0, gen32(rng)),                            // P0 everywhere
 		mk(genLeadingZero(rng), genLeadingZero(rng)),  // P1 leading-zero hashes, everywhere
 		mk(gen32(rng), gen32(rng)),                    // P2 commit only from stBoundary on, never acked
 		mk(gen32(rng), gen32(rng)),                    // P3 in stOld only (deleted later)
-		mk(append([]byte{}, v0...), gen32(rng)),       // P4 same commitment value as P0, everywhere
+		mkSlot(append([]byte{}, v0...), gen32(rng), 2), // P4 same commitment value as P0, everywhere; its ACK slot hash has a leading zero byte
 		mk(make([]byte, 32), genLeadingZero(rng)),     // P5 all-zero commitment
-		mk(gen32(rng), gen32(rng)),                    // P6 everywhere
+		mkSlot(gen32(rng), gen32(rng), 1),             // P6 everywhere; its COMMITMENT slot hash has a leading zero byte
 		mk(genLeadingZero(rng), gen32(rng)),           // P7 random presence
 		mk(gen32(rng), append([]byte{}, v0...)),       // P8 random presence; ack equals P0's commitment
 	}
